@@ -221,7 +221,7 @@ def check(ctx, only=None):
         rp = ctx.write_replay("stress", {
             "what": ("%d data race report(s) from the Go race detector; " % races if races else "") +
                     ("%d mock(s) with lost/duplicated/mixed records or wrong forwarding" % len(bad) if bad else ""),
-            "race_report_frames": race_summary(rerr), "errors": [e for r in bad for e in r["errors"]][:20],
+            "race_report_frames": race_summary(rerr), "first_race_report": re.sub(r"0x[0-9a-f]+", "0x..", rerr[rerr.find("WARNING: DATA RACE"):][:3500]) if races else "", "errors": [e for r in bad for e in r["errors"]][:20],
             "translation": "well-locked: %s %s" % (tie_ok, diag[:1500]),
             "case": spec, "jobs": jobs,
             "readable": [x for pk in pkgs[:3] for x in c04.render_pkg(pk).split("\n") if x.strip()][:60]})
